@@ -149,6 +149,21 @@ Theorem log_head_slice_refuted :
   slen t = 65 /\ log_head t = Panic /\ log_head (of_codes (repeat 35 64)) = Ok (of_codes (repeat 35 64)).
 Proof. exact log_head_slice_refuted_lemma. Qed.
 
+(* the cache file's formatter: write() replaces the file with the in-memory cache -- also with an EMPTY one
+   (`first` wipes a previous network's cache), so loading after a write returns what was written *)
+Theorem cache_write_then_read : forall st fs, fs_get (store_write st fs) (st_cache_path st) = Some (st_mem st).
+Proof. exact write_then_read_lemma. Qed.
+
+Theorem cache_write_empty_wipes : forall cfg now st fs,
+  st_mem st = [] -> st_cache_path st = st_cfg_path st -> store_load cfg now st (store_write st fs) = Some [].
+Proof. exact write_empty_wipes_lemma. Qed.
+
+Theorem write_skip_empty_refuted :
+  exists st fs, st_mem st = [] /\
+    fs_get (store_write_skip_empty st fs) (st_cache_path st) <> Some [] /\
+    fs_get (store_write st fs) (st_cache_path st) = Some [].
+Proof. exact write_skip_empty_refuted_lemma. Qed.
+
 (* ---- atomic replacement (premise built into `fs_do`: Commit = rename replaces the target in one step,
    temporary files are private to their writer) *)
 Theorem atomic_replace : forall (valid : string -> Prop) init steps,
@@ -157,6 +172,16 @@ Theorem atomic_replace : forall (valid : string -> Prop) init steps,
   forall seen rest, steps = seen ++ rest ->
     match target (run_fs (fresh_fs init) seen) with Some t => valid t | None => init = None end.
 Proof. exact atomic_replace_lemma. Qed.
+
+(* write() has a single way to the disk -- the atomic writer (translator fact re-read from cache_store.rs on every run:
+   AtomicWriteFile open ... commit, no direct File::create / fs::write / OpenOptions, no early return) -- and one such
+   write, over an ABSENT file as well as over a present one, never exposes an empty or partial file *)
+Theorem write_is_atomic_replace :
+  Consts.boot_write_atomic_only = true /\
+  forall init w chunks k,
+    let st := run_fs (fresh_fs init) (firstn k (write_steps w chunks)) in
+    target st = init \/ target st = Some (sconcat chunks).
+Proof. split; [reflexivity | exact single_write_atomic_lemma]. Qed.
 
 Theorem inplace_torn_refuted :
   exists steps,
